@@ -1,11 +1,138 @@
 import AslModel.HttpParse
+import AslProofs.HttpParse
 /-!
 # C09 — HTTP request parsing is total and safe and never yields a path containing `..`
-(work in progress: theorems are added below)
+
+Property theorems only (helper lemmas: `AslProofs/HttpParse.lean`).  All statements are about the functions
+the model driver runs (`read`, `serve`, `parseUrl`, `urlDecode`, `parseTarget`, …, `AslModel/HttpParse.lean`),
+for *every* byte list — the stream the peer sends before it closes, at any offset.
+
+How to read the model's result type `M α = Except Fault α`:
+* `Fault.oob`  — the code would index outside a string's storage (`s[i]`, `substring(i, j)`, `strchr(p + i0, …)`);
+* `Fault.spin` — a loop would still be running after `length + c` passes, i.e. it made a pass without consuming
+  a byte and without leaving.
+"Total and in bounds" is therefore `∃ r, f x = .ok r`.
 -/
 namespace C09
-open AslModel.HttpParse
+open AslModel.HttpParse AslProofs.HttpParse
 
-theorem placeholder_true : hasDD [] = false := rfl
+/-! ## specifications (written from the property text, not from the code) -/
+
+/-- no two consecutive `.` anywhere in the `length()` bytes of the string -/
+def NoDotDot (p : Bytes) : Prop := ∀ i, i + 1 < p.length → ¬ (p.getD i 0 = 46 ∧ p.getD (i + 1) 0 = 46)
+
+/-- the output socket state only ever has *less* unread input: bytes are consumed from the front, each at most once -/
+def ConsumesPrefix (before after : Sock) : Prop := after.inp.length ≤ before.inp.length
+
+/-! ## the decoded path never contains `..` -/
+
+/-- leftmost non-overlapping removal (`String::replace("..", "")`) leaves no `..`, for every string -/
+theorem replace_removes_all (s : Bytes) : NoDotDot (rmDD s) :=
+  (hasDD_false_iff _).mp (rmDD_noDD s)
+
+/-- for every raw path (any bytes, any percent-encoding, any repetition): decode, cut at NUL, sanitise ⇒ no `..`,
+    and no index fault on the way -/
+theorem no_dotdot_target (res : Bytes) : ∃ t, parseTarget res = .ok t ∧ NoDotDot t.path := by
+  obtain ⟨t, ht, hdd, _⟩ := parseTarget_ok res
+  exact ⟨t, ht, (hasDD_false_iff _).mp hdd⟩
+
+/-- whatever stream arrives on the connection, the request that `HttpRequest(Socket&)` builds has no `..` in `path()` -/
+theorem no_dotdot (s : Sock) : ∃ r, AslModel.HttpParse.read s = .ok r ∧ NoDotDot r.1.path := by
+  obtain ⟨r, hr, _, _, hdd, _⟩ := read_ok s
+  exact ⟨r, hr, (hasDD_false_iff _).mp hdd⟩
+
+/-- every request the server loop hands to the application, on any connection, has no `..` in `path()`;
+    so `_webroot + path` (`serveFile`) has no `..` component either -/
+theorem no_dotdot_served (s : Sock) : ∃ r, serve s = .ok r ∧ ∀ q ∈ r.2, NoDotDot q.path := by
+  obtain ⟨r, hr, _, hdd⟩ := serve_ok s
+  exact ⟨r, hr, fun q hq => (hasDD_false_iff _).mp (hdd q hq)⟩
+
+/-- the path is also NUL-free, so its `length()` bytes and its C string coincide (what `File` opens is what was checked) -/
+theorem path_has_no_nul (s : Sock) : ∃ r, AslModel.HttpParse.read s = .ok r ∧ ∀ c ∈ r.1.path, c ≠ 0 := by
+  obtain ⟨r, hr, _, _, _, hn⟩ := read_ok s
+  exact ⟨r, hr, hn⟩
+
+/-! ## totality: no spin, no out-of-bounds index, for every stream cut anywhere -/
+
+/-- `HttpRequest::read` returns for every stream (EOF at any offset, any socket state), consuming input only from
+    the front; on a live connection it consumes at least one byte -/
+theorem read_total (s : Sock) :
+    ∃ r, AslModel.HttpParse.read s = .ok r ∧ ConsumesPrefix s r.2 ∧ (Live s → r.2.inp.length < s.inp.length) := by
+  obtain ⟨r, hr, hle, hlt, _, _⟩ := read_ok s
+  exact ⟨r, hr, hle, hlt⟩
+
+/-- the header reader ends within `|stream| + 2` passes on every stream -/
+theorem readHeaders_total (s : Sock) : ∃ r, readHeaders s = .ok r ∧ ConsumesPrefix s r.1 := readHeaders_ok s
+
+/-- the body reader (Content-Length countdown and chunked framing, any header values) ends within `|stream| + 2`
+    passes on every stream: each pass consumes a byte or leaves.  (False for the code before fix c3aed7a.) -/
+theorem readBody_total (s : Sock) (h : Dic) : ∃ r, readBody s h = .ok r ∧ ConsumesPrefix s r.1 := readBody_ok s h
+
+/-- the whole keep-alive loop of `HttpServer::serve(Socket)` ends within `|stream| + 1` requests on every stream -/
+theorem serve_total (s : Sock) : ∃ r, serve s = .ok r ∧ ConsumesPrefix s r.1 := by
+  obtain ⟨r, hr, hle, _⟩ := serve_ok s
+  exact ⟨r, hr, hle⟩
+
+/-- `Url::Url(s)` never indexes outside `s`, for every byte string.  (False before fix f8af29f: `"[/]:8"`.) -/
+theorem url_total (u : Bytes) : ∃ r, parseUrl u = .ok r := parseUrl_ok u
+
+/-- `Url::decode(s)` never reads outside `s` (the two bytes after a `%` exist or are the terminator), and computes
+    percent-decoding as specified by `urlDecodeSpec`, for every byte string -/
+theorem urldecode_total (q : Bytes) : urlDecode q = .ok (urlDecodeSpec q) := urlDecode_eq_spec q
+
+/-- the request-line split and the target split never index out of bounds
+    (False before fix a72691d: target `/a#b?c`.) -/
+theorem requestline_total (cmd : Bytes) : ∃ r, parseRequestLine cmd = .ok r := parseRequestLine_ok cmd
+
+theorem target_total (res : Bytes) : ∃ t, splitTarget res = .ok t := splitTarget_ok res
+
+/-! ## headers are looked up case-insensitively -/
+
+/-- the canonical capitalisation does not depend on the case the name was sent or asked in, and is idempotent -/
+theorem capitalized_case_invariant (n : Bytes) :
+    capitalized (n.map toLower) = capitalized n ∧ capitalized (n.map toUpper) = capitalized n ∧
+    capitalized (capitalized n) = capitalized n :=
+  ⟨capAux_lower true n, capAux_upper true n, capAux_idem true n⟩
+
+theorem header_lookup_case_insensitive (h : Dic) (n : Bytes) :
+    header h (n.map toLower) = header h n ∧ header h (n.map toUpper) = header h n ∧
+    hasHeader h (n.map toLower) = hasHeader h n := by
+  unfold header hasHeader
+  rw [(capitalized_case_invariant n).1, (capitalized_case_invariant n).2.1]
+  exact ⟨rfl, rfl, rfl⟩
+
+/-- a header that was received with a non-empty value is found under any spelling of its name -/
+theorem header_set_get (h : Dic) (n v : Bytes) (hv : v ≠ []) :
+    header (setHeader h n v) (n.map toLower) = v ∧ header (setHeader h n v) (n.map toUpper) = v ∧
+    header (setHeader h n v) n = v := by
+  have hlen : (v.length == 0) = false := by
+    cases v with
+    | nil => exact absurd rfl hv
+    | cons a t => rfl
+  have key : header (setHeader h n v) n = v := by
+    unfold header setHeader
+    simp only [hlen, Bool.false_eq_true, if_false]
+    rw [dicFind_dicSet_same]
+    rfl
+  obtain ⟨h1, h2, _⟩ := header_lookup_case_insensitive (setHeader h n v) n
+  exact ⟨h1.trans key, h2.trans key, key⟩
+
+/-! ## non-vacuity and concrete witnesses (the fixed defects, replayed on the real library from corpus/C09) -/
+
+-- "GET /%00/../x HTTP/1.1\r\n\r\n": the encoded NUL no longer hides the `..` (d45e346)
+example : (AslModel.HttpParse.read { inp := [71, 69, 84, 32, 47, 37, 48, 48, 47, 46, 46, 47, 120, 32, 72, 84, 84, 80, 47, 49, 46, 49, 13, 10, 13, 10] }).toOption.map (·.1.path)
+    = some [47] := by decide
+-- target "/a/%2e%2e/b": sanitised to "/a//b"
+example : (parseTarget [47, 97, 47, 37, 50, 101, 37, 50, 101, 47, 98]).toOption.map (·.path) = some [47, 97, 47, 47, 98] := by decide
+-- target "/a#b?c": the '?' belongs to the fragment (a72691d)
+example : (splitTarget [47, 97, 35, 98, 63, 99]).toOption = some ([47, 97], [], [98, 63, 99]) := by decide
+-- Url("[/]:8") is rejected as a whole (f8af29f)
+example : (parseUrl [91, 47, 93, 58, 56]).toOption.map (·.port) = some 0 := by decide
+-- "Content-Length: 100" + 3 body bytes + EOF: the reader returns with the 3 bytes and an error state (c3aed7a)
+example : (readBody { inp := [97, 98, 99] } [(sContentLength, [49, 48, 48])]).toOption.map (fun r => (r.2, r.1.err)) = some ([97, 98, 99], 5) := by decide
+-- a live socket exists (the hypothesis of `read_total`'s progress clause)
+example : Live { inp := [71] } := ⟨rfl, rfl, by simp⟩
+-- `rmDD` really removes: "..../x" ↦ "/x", "..." ↦ "."
+example : rmDD [46, 46, 46, 46, 47, 120] = [47, 120] ∧ rmDD [46, 46, 46] = [46] := by decide
 
 end C09
